@@ -32,10 +32,13 @@ DClause == IF C.dq = <<>> THEN "ok"
 SymClause == IF C.sqT = <<>> THEN "ok"
              ELSE IF \E p \in Pairs : C.sqT[p[2]][p[1]] # C.sq[p[1]][p[2]] THEN "not-symmetric"
              ELSE "ok"
+\* nearly equal members of a stack: precision s is L_s L_s^T times the dyadic factor C.lmul[s] / 2^17 (outputs are logged in
+\* units of 2^-17 lattice units then); <<>> = plain stack
+Mul(s) == IF C.lmul = <<>> THEN 1 ELSE C.lmul[s]
 MahaClause == IF C.maha = <<>> THEN "ok"
               ELSE IF Len(C.maha) # Len(C.L) THEN "stack-size-differs"
               ELSE IF \E s \in 1..Len(C.L), p \in Pairs :
-                        ~HalfCell(C.X[p[1]], C.Y[p[2]], C.cell) /\ C.maha[s][p[1]][p[2]] # MahaD2(C.X[p[1]], C.Y[p[2]], C.cell, C.L[s])
+                        ~HalfCell(C.X[p[1]], C.Y[p[2]], C.cell) /\ C.maha[s][p[1]][p[2]] # MahaD2(C.X[p[1]], C.Y[p[2]], C.cell, C.L[s]) * Mul(s)
                    THEN "mahalanobis-differs-from-whitened-distance"
               ELSE "ok"
 RaiseClause == IF C.raised /\ Len(C.cell) = C.dim THEN "valid-call-raised"
